@@ -1039,6 +1039,18 @@ func vfJwtObserve(cfg vfJwtConfig, ks *vfJwtKeySet, tokA, tokB string) *vfJwtObs
 		vfJwtSetKeys(i1, ks.set)
 		vfJwtSetKeys(i2, ks.set)
 	}
+	// unrelated traffic just before: tokens with a complete claim set that are refused while being taken apart (signature text
+	// not base64, payload not JSON, a part missing) -- whatever the code keeps from them must not reach the next token
+	nowS := time.Now().Unix()
+	noiseClaims := fmt.Sprintf(`{"iss":%q,"aud":%q,"sub":"noise-user","email":"noise@example.com","exp":%d,"iat":%d,"nbf":%d,"jti":"noise-%d","nonce":"noise"}`,
+		cfg.Issuer, cfg.Client, nowS+3600, nowS-10, nowS-10, time.Now().UnixNano())
+	noiseHdr := vfB64j([]byte(`{"alg":"RS256","typ":"JWT","kid":"noise-kid"}`))
+	for _, nt := range []string{noiseHdr + "." + vfB64j([]byte(noiseClaims)) + ".!!not-base64!!", noiseHdr + "." + vfB64j([]byte(noiseClaims)),
+		noiseHdr + "." + vfB64j([]byte(noiseClaims[:len(noiseClaims)-1])) + ".c2ln"} {
+		nt := nt
+		vfJwtProtect(func() bool { return vfJwtLadder(i1, nt) })
+		vfJwtProtect(func() bool { return vfJwtVerifyToken(i2, nt) })
+	}
 	o.Now = time.Now().UnixNano()
 	var p1, p2 bool
 	var m1, m2 string
@@ -1053,6 +1065,8 @@ func vfJwtObserve(cfg vfJwtConfig, ks *vfJwtKeySet, tokA, tokB string) *vfJwtObs
 	}
 	return o
 }
+
+func vfB64j(b []byte) string { return base64.RawURLEncoding.EncodeToString(b) }
 
 func vfJwtNearBoundary(mode string) bool {
 	switch mode {
